@@ -4,7 +4,8 @@ import BandVerif.Model.Reward
 
 open Lean BandVerif BandVerif.Reward
 
-def step (s : Unit) (j : Json) : Except String (Unit × Json × List Fired) := do
+/-- state: number of oracle allocations seen in the current case (one begin-block per case) -/
+def step (s : Nat) (j : Json) : Except String (Nat × Json × List Fired) := do
   let op ← jstr j "op"
   let out := (j.getObjVal? "out").toOption.getD Json.null
   match op with
@@ -48,7 +49,7 @@ def step (s : Unit) (j : Json) : Except String (Unit × Json × List Fired) := d
         fired := fired ++ [{ name := "oracle_share_not_pct_of_pool", detail := out }]
     else if pct ≤ 100 then
       fired := fired ++ [{ name := "begin_block_error", detail := out }]
-    pure (s, mout, fired)
+    pure (s + 1, mout, fired)
   | "tssAlloc" =>
     let pool ← jint j "pool"
     let pct ← jint j "pct"
@@ -66,6 +67,9 @@ def step (s : Unit) (j : Json) : Except String (Unit × Json × List Fired) := d
       | some o => (o.transferred, o.perMember, o.communityFund * E18)
     let mout := mkObj [("err", js ""), ("transferred", ji tr), ("community", ji cf), ("members", jl (elig.map fun e => ji (if e then per else 0))), ("supplyDelta", ji 0)]
     let mut fired : List Fired := []
+    -- begin-block order: the bandtss share is a percentage of what the oracle share LEFT in the fee collector
+    if s == 0 then
+      fired := fired ++ [{ name := "bandtss_share_taken_before_oracle_share", detail := mkObj [("pool", ji pool)] }]
     if (← jstr out "err") == "" then
       let itr ← jint out "transferred"
       let icf ← jint out "community"
@@ -86,4 +90,4 @@ def step (s : Unit) (j : Json) : Except String (Unit × Json × List Fired) := d
     pure (s, mout, fired)
   | _ => throw s!"unknown op {op}"
 
-def main : IO UInt32 := runDriver { init := fun _ => (), step := step }
+def main : IO UInt32 := runDriver { init := fun _ => 0, step := step }
